@@ -390,7 +390,24 @@ def constructors(ctx, cuqi, lines, pending, thorough):
     FWD = [lambda x: x, lambda a, b=1, *args, **kwargs: a, lambda args, kwargs, z: z, lambda u, *, k: u, lambda theta=2: theta, inner, 3, None, "f"]
     CALL = [("a", None), ("c", "fn"), ("n", 3)]
 
-    def run_one(kind, line, thunk, canon_ok, desc):
+    def pyarg(v):
+        """classification of the python VALUE (the model derives callable(...), the cached names and the non-default arguments from it)"""
+        if v is None:
+            return "0"
+        if isinstance(v, cuqi.model.Model):
+            return "M|" + (",".join(v._non_default_args) or "_")
+        if inspect.isfunction(v) or inspect.ismethod(v):
+            ps = inspect.signature(v).parameters
+            return "F|" + (",".join(f"{k}.{0 if p_.default is inspect._empty else 1}" for k, p_ in ps.items()) or "_")
+        if isinstance(v, np.ndarray) and v.ndim == 2:
+            return f"A|{v.shape[0]}|{v.shape[1]}"
+        if isinstance(v, list):
+            return "L"
+        if isinstance(v, str):
+            return "S"
+        return "N"
+
+    def run_one(kind, line, thunk, canon_ok, desc, line2=None):
         try:
             with quiet():
                 r = thunk()
@@ -400,6 +417,8 @@ def constructors(ctx, cuqi, lines, pending, thorough):
         ctx.case(f"ctor:{kind}", desc)
         cov[f"{kind}:{impl.split(' ')[0] if not impl.startswith('err') else impl}"] = cov.get(f"{kind}:{impl.split(' ')[0] if not impl.startswith('err') else impl}", 0) + 1
         lines.append(line); pending.append((len(lines) - 1, f"tie:ctor:{kind}", desc, ("raw", impl), 0.0))
+        if line2 is not None:
+            lines.append(line2); pending.append((len(lines) - 1, f"tie:ctor:{kind}:from-values", desc, ("raw", impl), 0.0))
 
     # ---- Model.__init__
     combos = [(fi, gi, ji, ri, di) for fi in range(len(FWD)) for gi in range(3) for ji in range(3) for ri in range(len(GEOM_ARGS)) for di in range(len(GEOM_ARGS))]
@@ -427,7 +446,8 @@ def constructors(ctx, cuqi, lines, pending, thorough):
             kw["gradient"] = ug
         if uj is not None:
             kw["jacobian"] = uj
-        run_one("model", line, lambda: cuqi.model.Model(f, ra, da, **kw), canon_ok, desc)
+        run_one("model", line, lambda: cuqi.model.Model(f, ra, da, **kw), canon_ok, desc,
+                line2=f"ctorpy {pyarg(f)} {pyarg(ug)} {pyarg(uj)} {rt} {dt}")
 
     # ---- LinearModel.__init__
     LF = [(np.arange(6.0).reshape(2, 3), "m|2|3"), (np.ones((1, 4)), "m|1|4"), ([[1.0, 2.0]], "n"), (lambda x: x, None), (lambda v, w=0: v, None), (inner, None)]
@@ -447,7 +467,8 @@ def constructors(ctx, cuqi, lines, pending, thorough):
 
         def canon_ok(m):
             return f"ok {b_tok(m._matrix is not None)} {fmt_geom(m.range_geometry)} {fmt_geom(m.domain_geometry)} {m.range_dim} {m.domain_dim} {','.join(m._non_default_args) or '_'}"
-        run_one("linear", line, lambda: cuqi.model.LinearModel(f, ADJ[ai][1], ra, da), canon_ok, desc)
+        run_one("linear", line, lambda: cuqi.model.LinearModel(f, ADJ[ai][1], ra, da), canon_ok, desc,
+                line2=f"linctorpy {pyarg(f)} {pyarg(ADJ[ai][1])} {rt} {dt}")
 
     # ---- PDEModel.__init__
     from cuqi.pde import SteadyStateLinearPDE
@@ -502,3 +523,230 @@ def constructors(ctx, cuqi, lines, pending, thorough):
 
 def b_tok(v):
     return "1" if v else "0"
+
+
+# ------------------------------------------------------------------------------------------------ Geometry.__eq__
+class _Unsupported(Exception):
+    pass
+
+
+def _safe(s):
+    return "".join(c if (c.isalnum() or c in "_-.[]") else "%%%02x" % ord(c) for c in s)
+
+
+class GeomEncoder:
+    """vars(geometry) -> token of Driver/C12.lean (op `geq`).  Reads attribute VALUES only; the comparison itself is the model's."""
+    def __init__(self, cuqi):
+        self.G = cuqi.geometry
+        self.cls = {self.G.Geometry: 0, self.G.Continuous1D: 1, self.G.Image2D: 2}
+        self.objs = []
+
+    def clsid(self, c):
+        if c not in self.cls:
+            self.cls[c] = 10 + len(self.cls)
+        return self.cls[c]
+
+    def objid(self, o):
+        for i, p in enumerate(self.objs):
+            if p is o:
+                return i
+        self.objs.append(o)
+        return len(self.objs) - 1
+
+    def scalar(self, v):
+        if v is None:
+            return "None"
+        if isinstance(v, str):
+            return "s:" + _safe(v)
+        if isinstance(v, (bool, np.bool_)):
+            return "1" if v else "0"
+        if isinstance(v, (int, float, np.integer, np.floating)):
+            if v != v or v in (float("inf"), float("-inf")):
+                raise _Unsupported("nan/inf")
+            return q(float(v)) if not isinstance(v, (int, np.integer)) else str(int(v))
+        return "f:%d" % self.objid(v)
+
+    def val(self, v):
+        G = self.G
+        if isinstance(v, G.Geometry):
+            return self.geom(v)
+        if isinstance(v, (tuple, list)):
+            items = [self.val(x) for x in v]
+            return ["S", str(len(items))] + [t for it in items for t in it]
+        if isinstance(v, range):
+            v = np.arange(len(v)) if (len(v) == 0 or (v.start == 0 and v.step == 1)) else np.array(list(v))
+        if isinstance(v, np.ndarray):
+            if v.dtype == object or v.ndim > 2:
+                raise _Unsupported("object / rank>2 array")
+            if v.dtype.kind in "US":
+                data = ["s:" + _safe(str(x)) for x in v.ravel()]
+            else:
+                data = [self.scalar(x.item()) for x in v.ravel()]
+            return ["A", str(v.ndim)] + [str(d) for d in v.shape] + [str(len(data))] + data
+        return ["A", "0", "1", self.scalar(v)]
+
+    def geom(self, g):
+        G = self.G
+        mro = [self.clsid(c) for c in type(g).__mro__ if isinstance(c, type) and issubclass(c, G.Geometry)]
+        eqf = type(g).__eq__
+        kind = 1 if eqf is G._geometry._DefaultGeometry1D.__eq__ else 2 if eqf is G._geometry._DefaultGeometry2D.__eq__ else 0 if eqf is G.Geometry.__eq__ else None
+        if kind is None:
+            raise _Unsupported("user __eq__")
+        pd = g.par_dim
+        if pd is None:
+            raise _Unsupported("par_dim None")
+        items = list(vars(g).items())
+        out = ["G", str(len(mro))] + [str(m) for m in mro] + [str(kind), str(int(pd)), str(len(items))]
+        for k, v in items:
+            out += [_safe(k)] + self.val(v)
+        return out
+
+    def token(self, g):
+        return "~".join(self.geom(g))
+
+
+def geometry_zoo(cuqi, rng, n_extra):
+    """instances of every shipped geometry class (and user subclasses), in families that share grids / sizes so that
+    equal, unequal, loosely-equal and attribute-mismatching pairs all occur"""
+    G = cuqi.geometry
+    sq = lambda x: x ** 2
+    zoo = []
+    for N in (1, 3, 4):
+        zoo += [G.Continuous1D(N), G.Continuous1D(np.arange(N) + 0.5), G.Continuous1D(N, axis_labels=["t"]), G.Discrete(N),
+                G.Discrete(["a%d" % i for i in range(N)]), G._geometry._DefaultGeometry1D(N), G.Continuous1D(np.zeros(N))]
+        if N >= 3:
+            zoo += [G.StepExpansion(np.arange(N, dtype=float), n_steps=N - 1), G.StepExpansion(np.arange(N, dtype=float), n_steps=N - 1, fun2par_projection="max"),
+                    G.KLExpansion(np.arange(N, dtype=float), num_modes=2), G.KLExpansion(np.arange(N, dtype=float), num_modes=2, decay_rate=2.0),
+                    G.KLExpansion_Full(np.arange(N, dtype=float)), G.KLExpansion(np.arange(N, dtype=float))]
+        zoo += [G.MappedGeometry(G.Continuous1D(N), map=sq), G.MappedGeometry(G.Continuous1D(N), map=sq, imap=np.sqrt), G.MappedGeometry(G.Continuous1D(N), map=np.exp),
+                G.MappedGeometry(G.Discrete(N), map=sq), G.MappedGeometry(G.MappedGeometry(G.Continuous1D(N), map=sq), map=sq)]
+    zoo += [G.Image2D((2, 2)), G.Image2D((2, 2), order="F"), G.Image2D((2, 2), visual_only=True), G.Image2D((2, 3)), G._geometry._DefaultGeometry2D((2, 2)),
+            G._geometry._DefaultGeometry2D((2, 3)), G.Continuous2D((2, 2)), G.Continuous2D((2, 3)), G.Continuous2D((np.arange(2) + 0.5, np.arange(2))),
+            G.Continuous1D(4), G.Continuous1D(np.array([0.0])), G.Continuous1D(np.array([0.0, 0.0, 0.0]))]
+
+    class SubC1D(G.Continuous1D):
+        pass
+
+    class UserG(G.Geometry):
+        def __init__(self, E):
+            self._E = E
+        @property
+        def par_shape(self):
+            return (self._E.shape[1],)
+        def par2fun(self, p):
+            return self._E @ p
+        def _plot(self):
+            pass
+    zoo += [SubC1D(3), SubC1D(4), UserG(np.eye(2)), UserG(np.eye(2)), UserG(np.ones((3, 2))), UserG(np.ones((1, 2)))]
+    # geometries with extra instance attributes, variables generated / assigned, names set by a distribution
+    g1 = G.Continuous1D(3); g1.gradient = sq
+    g2 = G.Continuous1D(3); _ = g2.variables
+    g3 = G.Continuous1D(3); g3.variables = ["a", "b", "c"]
+    g4 = G.Continuous1D(3); g4._variable_name = "x"; _ = g4.variables
+    g5 = G.Continuous1D(3); g5._variable_name = "x"
+    g6 = G.Continuous1D(1); _ = g6.variables
+    g7 = G.Discrete(3); g7._variable_name = None
+    zoo += [g1, g2, g3, g4, g5, g6, g7]
+    import copy
+    zoo += [copy.deepcopy(z) for z in zoo[:: max(1, len(zoo) // max(1, n_extra))]][:n_extra]
+    return zoo
+
+
+def geometry_equality(ctx, cuqi, lines, pending, thorough):
+    """`a == b` for pairs out of a zoo of all shipped geometry classes: the implementation's answer against `geomEqD` computed by the model
+    from `vars(a)`, `vars(b)` taken right before the comparison (the comparison itself may add attributes to `b`)."""
+    rng = np.random.RandomState(ctx.seed + 1217)
+    enc = GeomEncoder(cuqi)
+    with quiet():
+        zoo = geometry_zoo(cuqi, rng, 12)
+        # pinned: objects that differ ONLY in the length of a list / tuple attribute with an equal common prefix, list vs tuple, list vs scalar
+        G_ = cuqi.geometry
+        pinned = [G_.Continuous1D(3, axis_labels=["t"]), G_.Continuous1D(3, axis_labels=["t", "u"]), G_.Continuous1D(3, axis_labels=("t",)),
+                  G_.Continuous1D(3, axis_labels="t"), G_.Continuous1D(3, axis_labels=[])]
+        npin = len(pinned)
+        zoo = pinned + zoo
+    cov = ctx.extra_cov.setdefault("geometry_eq_outcomes", {})
+    covc = ctx.extra_cov.setdefault("geometry_eq_classes", {})
+    pairs = [(i, j) for i in range(len(zoo)) for j in range(len(zoo))]
+    if not thorough:
+        diag = [(i, i) for i in range(len(zoo))]
+        same_cls = [(i, j) for (i, j) in pairs if i != j and (isinstance(zoo[j], type(zoo[i])) or isinstance(zoo[i], type(zoo[j])))]
+        rest = [p for p in pairs if p[0] != p[1] and p not in set(same_cls)]
+        pick_s = rng.choice(len(same_cls), size=min(500, len(same_cls)), replace=False)
+        pick_r = rng.choice(len(rest), size=min(200, len(rest)), replace=False)
+        pairs = [(i, j) for i in range(npin) for j in range(npin) if i != j] + diag + [same_cls[k] for k in pick_s] + [rest[k] for k in pick_r]
+    for (i, j) in pairs:
+        a, b_ = zoo[i], zoo[j]
+        try:
+            ta, tb = enc.token(a), enc.token(b_)
+        except _Unsupported as e:
+            cov["unsupported"] = cov.get("unsupported", 0) + 1
+            continue
+        try:
+            with quiet():
+                impl = "T" if bool(a == b_) else "F"
+        except Exception as e:
+            impl = f"err {type(e).__name__}"
+        desc = {"call": "Geometry.__eq__", "left": type(a).__name__, "right": type(b_).__name__, "i": i, "j": j, "seed_index": 900000}
+        ctx.case("geometry-eq", desc)
+        cov[impl] = cov.get(impl, 0) + 1
+        covc[type(a).__name__] = covc.get(type(a).__name__, 0) + 1
+        lines.append(f"geq {ta} {tb}")
+        pending.append((len(lines) - 1, "tie:geometry-eq", desc, ("raw", impl), 0.0))
+    return enc
+
+
+# ------------------------------------------------------------------------------------------------ gradient with a Samples `wrt`
+def gradient_samples_wrt(ctx, cuqi, lines, pending, verdicts, nconf):
+    """`model.gradient(direction, Samples(...), is_wrt_par=True/False)` for every model kind x domain geometry kind, direction an
+    array or a Samples object.  Model: `gradientFull` (driver op `gradsw`); the only leaf datum is what `domain_geometry.fun2par`
+    does to the Samples object (measured: hands it back / exception class).  Oracle: the call must raise."""
+    b = _base()
+    from cuqi.samples import Samples
+    rng = np.random.RandomState(ctx.seed + 1219)
+    cov = ctx.extra_cov.setdefault("gradient_samples_wrt", {})
+    for ci in range(nconf):
+        mk = b.MODEL_KINDS[ci % len(b.MODEL_KINDS)]
+        dk = b.DOMAIN_KINDS[(ci // 2) % len(b.DOMAIN_KINDS)]
+        n = int(rng.randint(2, 4))
+        D = b.make_geometries(cuqi, rng, n, dk)
+        if D is None:
+            continue
+        if (mk.startswith(("pde", "linmat")) or "jac" in mk) and not D.flat1d:
+            D = b.make_geometries(cuqi, rng, n, "cont1d")
+        nDf = int(np.prod(D.fun_shape))
+        R = b.make_geometries(cuqi, rng, nDf if mk.startswith("heat") else int(rng.randint(2, 4)), ["cont1d", "discrete", "default1d", "map-aff-1-1d"][ci % 4])
+        if ci % 3 == 0 and not isinstance(D.obj, (int, tuple)):
+            b.install_geom_gradient(D, "s")
+        try:
+            M = b.build_model(cuqi, rng, mk, D, R, D.obj, R.obj)
+        except Exception as e:
+            ctx.note(f"gradient-samples-wrt: constructor refused {mk} {D.label}: {type(e).__name__}")
+            continue
+        model = M.obj
+        Dg, Rg = model.domain_geometry, model.range_geometry
+        Xs = rng.randint(0, 4, size=(D.par_dim, 2)).astype(float)
+        S = Samples(Xs.copy(), geometry=Dg)
+        try:
+            with quiet():
+                Dg.fun2par(Samples(Xs.copy(), geometry=Dg))
+            conv = "pass"
+        except Exception as e:
+            conv = type(e).__name__
+        d = rng.randint(-3, 4, size=R.par_dim).astype(float)
+        Dtok, Rtok = D.token(0), R.token(1)
+        for dlab, dth, dtok in (("nd", lambda: d.copy(), f"nd:{qv(d)}"), ("samples", lambda: Samples(np.column_stack([d, d])), "smp")):
+            for iwp in (False, True):
+                st, val = b.call(lambda: model.gradient(dth(), Samples(Xs.copy(), geometry=Dg, is_par=iwp), is_wrt_par=iwp))
+                impl = f"err {val}" if st != "ok" else "value"
+                desc = {"call": "gradient", "model": mk, "domain": D.label, "domain_gradient": D.gradstyle, "range": R.label, "direction": dlab, "wrt": "samples",
+                        "is_wrt_par": iwp, "fun2par_on_samples": conv, "seed_index": 950000 + ci}
+                ctx.case(f"gradient:samples-wrt:{'par' if iwp else 'fun'}:{dlab}", desc)
+                cov[f"{conv}|{impl}"] = cov.get(f"{conv}|{impl}", 0) + 1
+                lines.append(f"gradsw {M.token} {Dtok} {Rtok} {dtok} {b.tok_bool(iwp)} {conv}")
+                pending.append((len(lines) - 1, f"tie:gradient:wrt-samples-{'par' if iwp else 'fun'}:dir-{dlab}", desc, ("raw", impl), 0.0))
+                if st == "ok":
+                    ctx.fail(f"gradient:samples-wrt:dir-{dlab}:refusal", desc, "an exception (a Samples object as linearisation point is not supported)", "a value",
+                             "gradient returned a value for a Samples `wrt`")
+                else:
+                    verdicts["gradient:samples-wrt:refused"] = verdicts.get("gradient:samples-wrt:refused", 0) + 1
